@@ -362,6 +362,14 @@ func (g *Gen) doCall(x *ssa.Call, c *ssa.CallCommon, st *State) []Val {
 	if f := c.StaticCallee(); f != nil && g.W.isPureLib(f) {
 		pure = true
 	}
+	if c.IsInvoke() {
+		if n, ok := c.Value.Type().(*types.Named); ok && n.Obj().Pkg() != nil {
+			switch n.Obj().Pkg().Path() {
+			case "go.uber.org/zap", "go.uber.org/zap/zapcore", "github.com/openGemini/openGemini/lib/logger":
+				pure = true
+			}
+		}
+	}
 	if !pure && !g.frameNothing {
 		g.havocForCall(c, st)
 	}
